@@ -11,6 +11,7 @@ import Driver.AnimEnc
 import Driver.Kernels
 import Driver.Mux
 import Driver.VP8Recon
+import Driver.Writer
 /-
   webpdrv — line protocol: one operation per input line (`op arg arg …`), one canonical
   output line per operation.  Unknown or malformed operations answer `bad-op` (never a default).
@@ -28,7 +29,8 @@ def dispatch (line : String) : String :=
            <|> Driver.VP8.handle op args
            <|> Driver.AnimEnc.handle op args
            <|> Driver.Kernels.handle op args <|> Driver.Mux.handle op args
-           <|> Driver.VP8Recon.handle op args) with
+           <|> Driver.VP8Recon.handle op args
+           <|> Driver.Writer.handle op args) with
     | some r => r
     | none => "bad-op"
 
